@@ -21,6 +21,15 @@
   repair (aliases de-duplicated across local bind maps only); the refutation
   `C13_finding_alias_redefined_within_task` is a statement about `legacyCfg`.
 
+  Section "the whole property map": the executor receives ONE map — common properties, the task
+  template's `properties:` block, the generated channel keys. `configureP` = `configurePWith codeCfg`
+  models all of it (`buildPMap`: the loops of BuildPropertyMap literally); `Cfg.generatedLast` is the
+  order of the two steps (declared properties first, generated keys last = the code,
+  `C13_property_order_is_code`); theorems: a generated key never depends on what the template
+  declares, every declared key that is not a key of one of the task's channels arrives unchanged, the
+  map tells every channel what the channel-level model (`configure`) says, and so the model meets
+  `SpecP` — the Spec the Driver evaluates on the real maps — for ALL task lists and property blocks.
+
   Last section: workflows with ITERATORS (targets and aliases are expressions; one
   generated role per value of a range): `expand` — each generated role resolves its
   OWN copy of the declarations against its OWN variables — and the theorems that
@@ -30,6 +39,7 @@
   under all settings of the loader's concurrency switches.
 -/
 import ControlModel.Proofs.Channels
+import ControlModel.Proofs.ChannelsPMap
 import ControlModel.Gen.C13Facts
 
 open Channels
@@ -136,10 +146,10 @@ theorem C13_finding_inbound_target_still_advertised : ¬ C13_matched_full := by
   intro h
   have := h
     [ { path := "root.a", host := "h1",
-        inbound := [⟨"data", .default, .tcp, "tcp://*:7777", ""⟩], outbound := [],
+        inbound := [⟨"data", .default, .tcp, "tcp://*:7777", "", {}⟩], outbound := [],
         loc := [("data", .tcp "*" 9000 .default)] },
       { path := "root.b", host := "h1", inbound := [],
-        outbound := [⟨"o", .default, "root.a:data"⟩], loc := [] } ]
+        outbound := [⟨"o", .default, "root.a:data", {}⟩], loc := [] } ]
     [ [("data", ⟨.bind, "tcp://*:7777", .default⟩)],
       [("o", ⟨.connect, "tcp://h1:9000", .default⟩)] ]
     (by decide) (by decide)
@@ -379,7 +389,7 @@ theorem C13_finding_alias_redefined_within_task : ¬ C13_alias_declared_full leg
   intro h
   let w : List Task :=
     [ { path := "root.a", host := "h1",
-        inbound := [⟨"data", .default, .tcp, "", "g"⟩, ⟨"mon", .default, .tcp, "", "g"⟩], outbound := [],
+        inbound := [⟨"data", .default, .tcp, "", "g", {}⟩, ⟨"mon", .default, .tcp, "", "g", {}⟩], outbound := [],
         loc := [("::g", .tcp "*" 9001 .default), ("data", .tcp "*" 9000 .default), ("mon", .tcp "*" 9001 .default)] } ]
   obtain ⟨e, he⟩ := h w (by decide) (by decide)
   have hok : configureWith legacyCfg w =
@@ -391,7 +401,7 @@ theorem C13_finding_alias_redefined_within_task : ¬ C13_alias_declared_full leg
 theorem C13_witness_alias_redefined_rejected :
     configure
       [ { path := "root.a", host := "h1",
-          inbound := [⟨"data", .default, .tcp, "", "g"⟩, ⟨"mon", .default, .tcp, "", "g"⟩], outbound := [],
+          inbound := [⟨"data", .default, .tcp, "", "g", {}⟩, ⟨"mon", .default, .tcp, "", "g", {}⟩], outbound := [],
           loc := [("::g", .tcp "*" 9001 .default), ("data", .tcp "*" 9000 .default), ("mon", .tcp "*" 9001 .default)] } ]
       = .error .aliasConflict := by decide
 
@@ -478,6 +488,250 @@ theorem C13_model_meets_weak_spec (tasks : List Task) (hwf : WF tasks) :
     | unmatched => exact C13_unmatched_only_if tasks hcfg
     | aliasConflict => exact C13_alias_error_only_if_shared tasks hwf hcfg
 
+/-! ## the whole property map: whatever else the template declares -/
+
+/-- `codeCfg.generatedLast` is what BuildPropertyMap does NOW (go/ast over core/task/task.go,
+    regenerated on every check): the one loop over `t.GetProperties()` copies into the result map
+    and stands, in the same block, before the one statement that calls `ToFMQMap` and copies the
+    generated channel keys unconditionally. Breaks if the two steps are swapped, if a second copy of
+    the declared properties appears, or if the generated writes become conditional on the map. -/
+theorem C13_property_order_is_code :
+    codeCfg.generatedLast = Gen.C13.declaredPropertiesBeforeChannelConfig := by decide
+
+/-- BuildPropertyMap, for every task, bind map and `properties:` block: the result is the generated
+    channel keys laid over the declared properties laid over the common properties — for every key,
+    the generated value if there is one, else the declared one, else the common one. The generated
+    keys `g` are a function of the channels and the bind maps alone (`genKVs` has no access to the
+    declared properties). -/
+theorem C13_generated_keys_win (bm : BindMap) (t : Task) (pm : PMap) (h : buildPMap codeCfg bm t = .ok pm) :
+    ∃ g, genKVs bm t.loc t.inbound t.outbound = .ok g ∧
+      ∀ k, Assoc.get pm k =
+        (Assoc.get (setAll [] g) k).or ((Assoc.get (setAll [] t.props) k).or (Assoc.get baseProps k)) := by
+  rw [buildPMap_eq] at h
+  cases hg : genKVs bm t.loc t.inbound t.outbound with
+  | error e => rw [hg] at h; cases h
+  | ok g =>
+    rw [hg] at h
+    simp only [codeCfg, if_true] at h
+    cases h
+    exact ⟨g, rfl, fun k => by rw [get_setAll_or, get_setAll_or baseProps]⟩
+
+/-- Generated channel keys are independent of the declared properties: replace the `properties:`
+    block of a task by ANY other block — BuildPropertyMap fails or succeeds as before, and every
+    key the channel configuration writes (address, transport, method, type, buffer sizes, … of
+    every configured channel) has the same value, the generated one. -/
+theorem C13_generated_keys_independent_of_declared (bm : BindMap) (t : Task) (props' : PMap) :
+    (∀ e, buildPMap codeCfg bm t = .error e ↔ buildPMap codeCfg bm { t with props := props' } = .error e) ∧
+    ∀ pm pm', buildPMap codeCfg bm t = .ok pm → buildPMap codeCfg bm { t with props := props' } = .ok pm' →
+      ∃ g, genKVs bm t.loc t.inbound t.outbound = .ok g ∧
+        ∀ k ∈ g.map (·.1), Assoc.get pm k = Assoc.get (setAll [] g) k ∧ Assoc.get pm' k = Assoc.get pm k := by
+  rw [buildPMap_eq, buildPMap_eq]
+  simp only
+  cases hg : genKVs bm t.loc t.inbound t.outbound with
+  | error e => exact ⟨fun e' => Iff.rfl, fun pm pm' h => by cases h⟩
+  | ok g =>
+    refine ⟨fun e' => ⟨fun h => (by cases h), fun h => (by cases h)⟩, fun pm pm' h h' => ⟨g, rfl, fun k hk => ?_⟩⟩
+    simp only [codeCfg, if_true] at h h'
+    cases h; cases h'
+    obtain ⟨v, hv⟩ := get_setAll_mem [] g k hk
+    rw [get_setAll_or, get_setAll_or (setAll baseProps props'), hv]
+    simp
+
+/-- Declared keys that do not collide are delivered unchanged: a key of the `properties:` block
+    that is not a key of one of the task's own channels reaches the executor with its declared value. -/
+theorem C13_free_declared_keys_delivered (bm : BindMap) (t : Task) (pm : PMap) (hd : propsDistinct t)
+    (h : buildPMap codeCfg bm t = .ok pm) :
+    ∀ kv ∈ t.props, ownsKey t kv.1 = false → Assoc.get pm kv.1 = some kv.2 := by
+  rw [buildPMap_eq] at h
+  cases hg : genKVs bm t.loc t.inbound t.outbound with
+  | error e => rw [hg] at h; cases h
+  | ok g =>
+    rw [hg] at h
+    simp only [codeCfg, if_true] at h
+    cases h
+    intro kv hkv hfree
+    have hnot : kv.1 ∉ g.map (·.1) := by
+      intro hin
+      obtain ⟨x, hx, hxk⟩ := List.mem_map.mp hin
+      have := genKVs_owned hg hx
+      rw [hxk, hfree] at this
+      cases this
+    rw [get_setAll_not_mem _ _ _ hnot]
+    exact get_setAll_consistent _ _ _ _ hkv (fun v' hv' => nodup_fst_unique hd hv' hkv)
+
+/-- The order of the two steps matters exactly on collisions: for a task none of whose declared keys
+    is a key of one of its channels, "declared properties last" yields the same map, key by key. -/
+theorem C13_order_matters_only_on_collisions (bm : BindMap) (t : Task)
+    (hfree : ∀ kv ∈ t.props, ownsKey t kv.1 = false) (pm pm' : PMap)
+    (h : buildPMap codeCfg bm t = .ok pm) (h' : buildPMap declaredLastCfg bm t = .ok pm') :
+    ∀ k, Assoc.get pm' k = Assoc.get pm k := by
+  rw [buildPMap_eq] at h h'
+  cases hg : genKVs bm t.loc t.inbound t.outbound with
+  | error e => rw [hg] at h; cases h
+  | ok g =>
+    rw [hg] at h h'
+    simp only [codeCfg, declaredLastCfg, if_true, Bool.false_eq_true, if_false] at h h'
+    cases h; cases h'
+    intro k
+    rw [get_setAll_or, get_setAll_or baseProps, get_setAll_or (setAll baseProps t.props), get_setAll_or baseProps]
+    cases hG : Assoc.get (setAll [] g) k with
+    | none => simp
+    | some v =>
+      cases hP : Assoc.get (setAll [] t.props) k with
+      | none => simp
+      | some w =>
+        exfalso
+        obtain ⟨x, hx, hxk⟩ := List.mem_map.mp (mem_keys_of_get_setAll hG)
+        obtain ⟨y, hy, hyk⟩ := List.mem_map.mp (mem_keys_of_get_setAll hP)
+        have h1 := genKVs_owned hg hx
+        have h2 := hfree y hy
+        rw [hxk] at h1; rw [hyk, h1] at h2
+        cases h2
+
+/-- The map tells every channel what the channel-level model says: `configureP` and `configure`
+    fail together with the same error, or succeed together, and then — task by task — every entry
+    `(method, address, transport)` the channel-level model computes for a channel is what the
+    property map holds under `chans.<n>.0.{method,address,transport}` (`RelL`, `readEntry`). All the
+    channel-level theorems above are therefore theorems about the maps the executors receive. -/
+theorem C13_map_tells_channel_model (tasks : List Task) : RelLE (configureP tasks) (configure tasks) :=
+  configureP_rel codeCfg rfl tasks
+
+/-- Clause 5 for the model: in every configured task, every generated key other than address /
+    transport carries the channel's own declaration (`numSockets = 1`, method, type, buffer sizes,
+    rate logging, kernel sizes, `autoBind` for inbound channels) and every declared key that is not
+    a key of one of the task's channels arrives unchanged — whatever the `properties:` block holds. -/
+theorem C13_rest_of_map_delivered (tasks : List Task) (pms : List PMap) (hwf : WFP tasks)
+    (h : configureP tasks = .ok pms) : Delivered tasks pms := by
+  obtain ⟨bm, _, hm⟩ := wireP_ok h
+  obtain ⟨_, hzip, _⟩ := mapE_ok hm
+  intro p hp
+  obtain ⟨t, pm⟩ := p
+  have htp : buildPMap codeCfg bm t = .ok pm := hzip (t, pm) hp
+  have hpt : t ∈ tasks := (List.of_mem_zip hp).1
+  obtain ⟨hl, _, hnd⟩ := hwf.1.1 t hpt
+  have hpd := hwf.2 t hpt
+  refine ⟨?_, ?_, C13_free_declared_keys_delivered bm t pm hpd htp⟩
+  · intro c hc hcf
+    have hc : c ∈ t.inbound := hc
+    obtain ⟨e, he⟩ := inboundFMQ_of_configurable hl hc hcf
+    have hmeth := inboundFMQ_method he
+    rw [buildPMap_eq] at htp
+    cases hg : genKVs bm t.loc t.inbound t.outbound with
+    | error e' => rw [hg] at htp; cases htp
+    | ok g =>
+      rw [hg] at htp
+      simp only [codeCfg, if_true] at htp
+      cases htp
+      have hsrc : (∃ c' ∈ t.inbound, c'.name = c.name ∧ c'.misc = c.misc ∧ inboundFMQ t.loc c' = some e) ∨
+          (∃ o ∈ t.outbound, o.name = c.name ∧ o.misc = c.misc ∧ outboundFMQ bm o = .ok e) :=
+        Or.inl ⟨c, hc, rfl, rfl, he⟩
+      refine ⟨genKVs_block hg hnd hsrc (mem_fmqMap.mpr (Or.inl rfl)) _, fun f hf h1 h2 => ?_⟩
+      have := genKVs_block hg hnd hsrc (k := .chan c.name f) (v := fieldVal c.misc e f)
+        (mem_fmqMap.mpr (Or.inr ⟨f, hmeth ▸ hf, rfl⟩)) (setAll baseProps t.props)
+      show Assoc.get (setAll (setAll baseProps t.props) g) _ = _
+      rw [this, fieldVal_misc _ _ _ h1 h2, hmeth]
+  · intro o ho
+    have ho : o ∈ t.outbound := ho
+    rw [buildPMap_eq] at htp
+    cases hg : genKVs bm t.loc t.inbound t.outbound with
+    | error e' => rw [hg] at htp; cases htp
+    | ok g =>
+      rw [hg] at htp
+      simp only [codeCfg, if_true] at htp
+      cases htp
+      have hall : ∃ e, outboundFMQ bm o = .ok e := by
+        unfold genKVs at hg
+        split at hg
+        · cases hg
+        · rename_i r hr
+          exact outKVs_all hr ho
+      obtain ⟨e, he⟩ := hall
+      have hmeth := outboundFMQ_method he
+      have hsrc : (∃ c' ∈ t.inbound, c'.name = o.name ∧ c'.misc = o.misc ∧ inboundFMQ t.loc c' = some e) ∨
+          (∃ o' ∈ t.outbound, o'.name = o.name ∧ o'.misc = o.misc ∧ outboundFMQ bm o' = .ok e) :=
+        Or.inr ⟨o, ho, rfl, rfl, he⟩
+      refine ⟨genKVs_block hg hnd hsrc (mem_fmqMap.mpr (Or.inl rfl)) _, fun f hf h1 h2 => ?_⟩
+      have := genKVs_block hg hnd hsrc (k := .chan o.name f) (v := fieldVal o.misc e f)
+        (mem_fmqMap.mpr (Or.inr ⟨f, hmeth ▸ hf, rfl⟩)) (setAll baseProps t.props)
+      show Assoc.get (setAll (setAll baseProps t.props) g) _ = _
+      rw [this, fieldVal_misc _ _ _ h1 h2, hmeth]
+
+/-- From the channel-level Spec to the Spec of the whole maps (any weakening flags). -/
+theorem C13_spec_lifts_to_maps (a b : Bool) (tasks : List Task) (hwf : WFP tasks)
+    (hs : SpecW a b tasks (configure tasks)) : SpecPW a b tasks (configureP tasks) := by
+  have hrel := C13_map_tells_channel_model tasks
+  cases hP : configureP tasks with
+  | error e =>
+    cases hC : configure tasks with
+    | error e' => rw [hP, hC] at hrel; rw [hC] at hs; cases (show e = e' from hrel); exact hs
+    | ok res => rw [hP, hC] at hrel; exact hrel.elim
+  | ok pms =>
+    cases hC : configure tasks with
+    | error e' => rw [hP, hC] at hrel; exact hrel.elim
+    | ok res =>
+      rw [hP, hC] at hrel; rw [hC] at hs
+      have hrel : RelL pms res := hrel
+      exact ⟨(RelL_length hrel).trans hs.1, SpecW_mono hrel hs, C13_rest_of_map_delivered tasks pms hwf hP⟩
+
+/-- THE PROPERTY OVER THE WHOLE MAP, for all task lists and all `properties:` blocks: on every
+    well-formed input without inbound targets the maps the model sends satisfy the full-strength
+    `SpecP` — the predicate the correspondence run evaluates on the maps the real code sent: every
+    outbound channel is told to connect to where the matching inbound channel was told to bind,
+    whatever else the templates declare. -/
+theorem C13_model_meets_spec_maps (tasks : List Task) (hwf : WFP tasks) (hnt : noInboundTarget tasks = true) :
+    SpecP tasks (configureP tasks) :=
+  C13_spec_lifts_to_maps false false tasks hwf (C13_model_meets_spec tasks hwf.1 hnt)
+
+theorem C13_model_meets_spec_maps_up_to_inbound_target (tasks : List Task) (hwf : WFP tasks) :
+    SpecPW true false tasks (configureP tasks) :=
+  C13_spec_lifts_to_maps true false tasks hwf (C13_model_meets_spec_up_to_inbound_target tasks hwf.1)
+
+theorem C13_model_meets_weak_spec_maps (tasks : List Task) (hwf : WFP tasks) :
+    SpecPW true true tasks (configureP tasks) :=
+  C13_spec_lifts_to_maps true true tasks hwf (C13_model_meets_weak_spec tasks hwf.1)
+
+/-- What the order is worth (a statement about a configuration that is NOT the code): with the
+    declared properties copied AFTER the generated keys the property fails. Witness: template
+    `reader` binds `data` (shmem) and still carries `chans.data.0.address: tcp://*:5555` from
+    stand-alone running, template `proc` connects `data` to `root.reader:data` and carries
+    `chans.data.0.address: tcp://localhost:5555` + `…transport: zeromq`. Nothing fails; the reader
+    binds port 5555 instead of the allocated 9000 and the processor connects to localhost:5555. -/
+theorem C13_declared_last_breaks_wiring :
+    ¬ ∀ tasks, WFP tasks → noInboundTarget tasks = true → SpecP tasks (configurePWith declaredLastCfg tasks) := by
+  intro h
+  have := h
+    [ { path := "root.reader", host := "flp1",
+        inbound := [⟨"data", .shmem, .tcp, "", "", {}⟩], outbound := [],
+        loc := [("data", .tcp "*" 9000 .shmem)],
+        props := [(.chan "data" .address, "tcp://*:5555"), (.other "severity", "info")] },
+      { path := "root.proc", host := "flp1", inbound := [],
+        outbound := [⟨"data", .default, "root.reader:data", { type := "pull" }⟩], loc := [],
+        props := [(.chan "data" .address, "tcp://localhost:5555"), (.chan "data" .transport, "zeromq")] } ]
+    (by decide) (by decide)
+  revert this
+  decide
+
+/-- Non-vacuity, same witness under the code as it is: the hypotheses hold, the reader is told to
+    bind the ALLOCATED port with its own transport, the processor to connect there with the reader's
+    transport — the three colliding declarations are gone — and `severity` arrives unchanged. -/
+example :
+    let reader : Task :=
+      { path := "root.reader", host := "flp1",
+        inbound := [⟨"data", .shmem, .tcp, "", "", {}⟩], outbound := [],
+        loc := [("data", .tcp "*" 9000 .shmem)],
+        props := [(.chan "data" .address, "tcp://*:5555"), (.other "severity", "info")] }
+    let proc : Task :=
+      { path := "root.proc", host := "flp1", inbound := [],
+        outbound := [⟨"data", .default, "root.reader:data", { type := "pull" }⟩], loc := [],
+        props := [(.chan "data" .address, "tcp://localhost:5555"), (.chan "data" .transport, "zeromq")] }
+    WFP [reader, proc] ∧ noInboundTarget [reader, proc] = true ∧
+    (configureP [reader, proc]).map (fun pms => pms.map fun pm =>
+        (readEntry pm "data", Assoc.get pm (.chan "data" .type), Assoc.get pm (.other "severity"))) =
+      .ok [ (some ⟨.bind, "tcp://*:9000", .shmem⟩, some "push", some "info"),
+            (some ⟨.connect, "tcp://flp1:9000", .shmem⟩, some "pull", none) ] ∧
+    SpecP [reader, proc] (configureP [reader, proc]) := by
+  decide
+
 /-! ## the launch establishes what the theorems assume -/
 
 /-- The allocation loop of makeTaskForMesosResources (`allocLocal`: for each inbound
@@ -553,11 +807,11 @@ theorem C13_nearest_declaration_wins (n : String) (own inherited cls : List Inbo
 example :
     let p : Task :=
       { path := "root.p", host := "flp1",
-        inbound := [⟨"data", .zeromq, .tcp, "", ""⟩, ⟨"mon", .shmem, .ipc, "", "mon"⟩], outbound := [],
+        inbound := [⟨"data", .zeromq, .tcp, "", "", {}⟩, ⟨"mon", .shmem, .ipc, "", "mon", {}⟩], outbound := [],
         loc := [("::mon", .ipc "@o2ipc-%0" .shmem), ("data", .tcp "*" 9000 .zeromq), ("mon", .ipc "@o2ipc-%0" .shmem)] }
     let c : Task :=
       { path := "root.c", host := "epn1", inbound := [],
-        outbound := [⟨"in", .default, "root.p:data"⟩, ⟨"m", .default, "::mon"⟩, ⟨"x", .nanomsg, "tcp://elsewhere:1"⟩],
+        outbound := [⟨"in", .default, "root.p:data", {}⟩, ⟨"m", .default, "::mon", {}⟩, ⟨"x", .nanomsg, "tcp://elsewhere:1", {}⟩],
         loc := [] }
     WF [p, c] ∧ noInboundTarget [p, c] = true ∧ (∀ t ∈ [p, c], aliasesAdvertised t) ∧
     configure [p, c] = .ok
@@ -670,6 +924,26 @@ theorem C13_model_meets_weak_spec_template (classes : List (String × Class)) (r
       (configure (templateTasks classes root launch)) :=
   ⟨rfl, C13_model_meets_weak_spec _ hwf⟩
 
+/-- …and over the whole property maps (task templates with `properties:` blocks under iterators). -/
+theorem C13_model_meets_spec_maps_template (classes : List (String × Class)) (root : TForest)
+    (launch : List (String × String × BindMap))
+    (hwf : WFP (templateTasks classes root launch))
+    (hnt : noInboundTarget (templateTasks classes root launch) = true) :
+    SpecTP classes root launch ((templateDecls root).map TaskDecl.seen)
+      (configureP (templateTasks classes root launch)) :=
+  ⟨rfl, C13_model_meets_spec_maps _ hwf hnt⟩
+
+theorem C13_model_meets_spec_maps_up_to_inbound_target_template (classes : List (String × Class)) (root : TForest)
+    (launch : List (String × String × BindMap)) (hwf : WFP (templateTasks classes root launch)) :
+    SpecTPW true false classes root launch ((templateDecls root).map TaskDecl.seen)
+      (configureP (templateTasks classes root launch)) :=
+  ⟨rfl, C13_model_meets_spec_maps_up_to_inbound_target _ hwf⟩
+
+/-- Every task generated from a template carries the template's `properties:` block. -/
+theorem C13_template_tasks_carry_class_properties (classes : List (String × Class)) (d : TaskDecl)
+    (path host : String) (loc : BindMap) :
+    (mkTask classes d path host loc).props = ((Assoc.get classes d.cls).getD { bind := [], connect := [] }).props := rfl
+
 /-- Non-vacuity (the per-host shape): `host-{{ it }}` for it = 1..3, below each a `sink` binding
     `data` and a `source` connecting to `{{ Parent().Path }}.sink:data`; one host per instance,
     port 9000 everywhere. Every source is sent the address of the sink of its OWN host. -/
@@ -678,12 +952,12 @@ example :
       .agg [.lit "root"] [] []
         (.iter "it" ["1", "2", "3"]
           (.agg [.lit "host-", .var "it"] [] []
-            (.task [.lit "sink"] "s" 0 [⟨"data", .default, .tcp, "", []⟩] []
-              (.task [.lit "source"] "c" 0 [] [⟨"data", .default, [.parentPath, .lit ".sink:data"]⟩] .nil))
+            (.task [.lit "sink"] "s" 0 [⟨"data", .default, .tcp, "", [], {}⟩] []
+              (.task [.lit "source"] "c" 0 [] [⟨"data", .default, [.parentPath, .lit ".sink:data"], {}⟩] .nil))
             .nil)
           .nil)
         .nil
-    let classes : List (String × Class) := [("s", ⟨[], []⟩), ("c", ⟨[], []⟩)]
+    let classes : List (String × Class) := [("s", ⟨[], [], []⟩), ("c", ⟨[], [], []⟩)]
     let ep : BindMap := [("data", .tcp "*" 9000 .default)]
     let launch : List (String × String × BindMap) :=
       [("root.host-1.sink", "flp1", ep), ("root.host-1.source", "flp1", []),
